@@ -324,6 +324,12 @@ class _Finder(importlib.abc.MetaPathFinder, importlib.abc.Loader):
 _installed = False
 
 
+def stub_native_parsing():
+    """For checks that never run the search: an inert depccg._parsing so that depccg.parsing imports."""
+    if 'depccg._parsing' not in sys.modules:
+        sys.modules['depccg._parsing'] = _StubModule('depccg._parsing')
+
+
 def install(lang=None):
     """Idempotent. Puts REPO first on sys.path, the stub finder first on sys.meta_path."""
     global _installed
